@@ -49,3 +49,7 @@ UNITS += [Unit('jd_num', 'wrappers/jd.cpp', defs=SM, cuts={'CUT_PARSENUMBER': r'
 for nb in (63, 5):
     OBS.append(Ob(['C01', 'C03', 'C12', 'C16'], 'pnumval_n%d' % nb, 'jd_num', 'harness/jd_num.c', 'h_pnumval', defs=['UNIT_H="jd_num.h"', 'NB=%d' % nb, 'NUMBER_RET=struct L_i8_i64_E'], unwind=70, fs='none', cap=300, hunwind=70,
         desc='parseNumericValue buffer fill with parseNumber cut: %d number characters copied verbatim + NUL, one latched look-ahead' % nb, bound='all numerals of exactly %d number characters followed by any non-number byte' % nb))
+UNITS += [Unit('jd_sobj', 'wrappers/jd.cpp', defs=CONT, cuts={'CUT_PV_ALL': r'12parseVariantINS1_14AllowAllFilterE', 'CUT_SV': r'11skipVariantE', 'CUT_ADD_ELEMENT': r'9ArrayData10addElementEPNS1_15ResourceManagerE$',
+    'CUT_SKEY': r'JsonDeserializerI7VReaderE7skipKeyEv'})]
+OBS.append(Ob(['C15', 'C10', 'C03', 'C11', 'C16'], 'skip_object_step', 'jd_sobj', 'harness/jd_cont.c', 'h_skip_object', defs=['UNIT_H="jd_sobj.h"', 'NB=3'], unwind=6, fs='none', cap=400, hunwind=12,
+    desc='skipObject one activation (keys and values cut): code / consumed / keys / values / limit equal the reference object recogniser', bound="'{' + all continuations of 3 bytes, all limits, every key / value behaviour allowed by the contracts (<= 4 members)"))
